@@ -1155,6 +1155,13 @@ class SymArray:
         c = self.cells_list()
         return SymArray(c, shape, name=self.name, dtype=self.dtype)
 
+    def astype(self, dtype):
+        """numpy astype: values that fit are kept, others wrap (over-approximated by an arbitrary value of the dtype)"""
+        dt = dtype if isinstance(dtype, DType) else dtype_of(dtype)
+        out = SymArray([0] * self.size, self.shape, name=self.name + ".astype", dtype=dt)
+        NPShim.copyto(_NPS[0], out, self, casting="unsafe")
+        return out
+
     def sort(self):
         vals = sort_network(self.cells_list())
         for p, v in zip(self._positions(), vals):
@@ -1423,6 +1430,15 @@ class NPShim:
             return SymArray(flat, shp(data), name="array", dtype=self._dt(dtype) if dtype is not None else INT64)
         return self._np.array(data, dtype) if dtype is not None else self._np.array(data)
 
+    def multiply(self, a, b, out=None):
+        va, vb = a.cells_list(), b.cells_list()
+        res = [x * y for x, y in zip(va, vb)]
+        if out is None:
+            return SymArray(res, a.shape, name="mul", dtype=a.dtype)
+        for p, v in zip(out._positions(), res):
+            out.cells[p] = out._store_check(v)
+        return out
+
     def argsort(self, a):
         raise EngineError("argsort must be shimmed by the harness")
 
@@ -1432,8 +1448,13 @@ class NPShim:
         return self._np.isfinite(v)
 
 
+_NPS = []
+
+
 def install_builtins(over=None):
     """names shadowed inside every transformed function"""
+    if not _NPS:
+        _NPS.append(NPShim())
     d = {"int": SInt, "bool": SBool, "min": s_min, "max": s_max, "abs": s_abs, "sum": s_sum,
          "isinstance": s_isinstance, "np": NPShim(), "str": _StrShadow, "float": SFloat}
     if over:
